@@ -21,6 +21,12 @@ Oracle (routing table written from the statement, not from `emit`):
 * the statement does not settle metric-kinded events whose value is an *empty* sequence, an integer
   outside i64, or numeric-looking text: "metrics or the fallback, exactly one".
 
+A second section ("split batches under failures") sends > 3.5 MiB per signal so that one batch is
+split into several requests; the collector acknowledges the first request(s) of the batch and fails a
+later one with every retryable failure kind. There, an unacknowledged attempt and its acknowledged
+retry may carry the same events (at-least-once), but no event may be in two *acknowledged* requests,
+and every request that carries an event must be on the endpoint of its one signal.
+
 The request path and the port it arrived on must name the same signal.
 A scenario whose `blocking_flush` returns false, or whose requests cannot be decoded, is
 inconclusive (encoding fidelity is C13's business).
@@ -578,6 +584,231 @@ fn run(r: &mut Report, sc: &Scenario, seed: u64) {
     drop(col);
 }
 
+// ---------------------------------------------------------------------------
+// split batches under failures: nothing that was acknowledged is exported again
+// ---------------------------------------------------------------------------
+
+const MIB: usize = 1024 * 1024;
+
+fn split_signal(kind: u64, subset: u8) -> Option<Signal> {
+    let has = |s: Signal| subset & s.bit() != 0;
+    match kind {
+        1 if has(Signal::Traces) => Some(Signal::Traces),
+        2 if has(Signal::Metrics) => Some(Signal::Metrics),
+        _ if has(Signal::Logs) => Some(Signal::Logs),
+        _ => None,
+    }
+}
+
+fn emit_big(otlp: &emit_otlp::Otlp, vid: u64, kind: u64, pad: &str) {
+    use emit::Value;
+    let name = format!("v{}", vid);
+    let tpl = emit::Template::literal_ref(&name);
+    let mdl = emit::Path::new_raw("verif::c14::split");
+    let kind_span = emit::Kind::Span;
+    let kind_metric = emit::Kind::Metric;
+    match kind {
+        1 => {
+            let props = [("evt_kind", Value::from_any(&kind_span)), ("vid", Value::from(vid as i64)), ("pad", Value::from(pad))];
+            otlp.emit(emit::Event::new(mdl, tpl, emit::Extent::range(ts(vid % 1000, 1)..ts(vid % 1000 + 1, 2)), &props[..]));
+        }
+        2 => {
+            let props = [("evt_kind", Value::from_any(&kind_metric)), ("vid", Value::from(vid as i64)), ("metric_agg", Value::from("sum")), ("metric_value", Value::from(3)), ("pad", Value::from(pad))];
+            otlp.emit(emit::Event::new(mdl, tpl, emit::Extent::point(ts(vid % 1000, 1)), &props[..]));
+        }
+        _ => {
+            let props = [("vid", Value::from(vid as i64)), ("pad", Value::from(pad))];
+            otlp.emit(emit::Event::new(mdl, tpl, emit::Extent::point(ts(vid % 1000, 1)), &props[..]));
+        }
+    }
+}
+
+/// More than 1 MiB per signal, so that one batch is split into several requests; the collector
+/// acknowledges the first request(s) of the batch and fails a LATER one (every retryable failure kind is
+/// walked). At-least-once allows an unacknowledged attempt and its acknowledged retry to carry the same
+/// events, but an event must never be in two *acknowledged* requests, and every request that carries it
+/// must be on the endpoint of its one signal.
+fn run_split(r: &mut Report, seed: u64, case: u64) {
+    r.eval();
+    let mut g = Rng::stream(seed, &[14, 2, case]);
+    let transport = Transport::ALL[(case % 3) as usize];
+    let gzip = case / 3 % 2 == 0;
+    let subset = (case / 6 % 7 + 1) as u8;
+    let tname = transport.name();
+    let grpc = transport == Transport::Grpc;
+    let menu: Vec<Decision> = if grpc {
+        vec![
+            Decision::GrpcStatus(14, GrpcForm::Trailers),
+            Decision::GrpcStatus(8, GrpcForm::TrailersOnly),
+            Decision::Status(503),
+            Decision::DropOnAccept,
+            Decision::DropBeforeBody,
+            Decision::DropAfterRead,
+            Decision::Stall,
+            Decision::StallAt(Phase::AfterHeaders, 200),
+            Decision::StallAt(Phase::BeforeTrailers, 200),
+        ]
+    } else {
+        vec![
+            Decision::Status(503),
+            Decision::Status(429),
+            Decision::DropOnAccept,
+            Decision::DropBeforeBody,
+            Decision::DropAfterRead,
+            Decision::Stall,
+            Decision::StallAt(Phase::InHead, 200),
+            Decision::StallAt(Phase::InBody, 503),
+        ]
+    };
+    let fault = menu[(case / 3) as usize % menu.len()];
+    let acks_first = 1 + (case / 3 / menu.len() as u64 % 2) as usize;
+    let configured: Vec<Signal> = Signal::ALL.into_iter().filter(|s| subset & s.bit() != 0).collect();
+    let cfgs = configured
+        .iter()
+        .map(|s| {
+            let mut script = vec![Decision::HoldAck(3_000)];
+            script.extend(std::iter::repeat(Decision::Ack(200)).take(acks_first));
+            script.push(fault);
+            EndpointCfg { signal: *s, wire: transport.wire(), listen: true, script }
+        })
+        .collect();
+    let col = Collector::start(cfgs);
+    let otlp = build_otlp(&col, transport, gzip, subset);
+    let case_json = |detail: Json| json!({"seed": seed, "case": case, "kind": "split-batch", "transport": tname, "gzip": gzip, "subset": subset_name(subset),
+        "script_per_signal": format!("hold-ack, {} x ack200, {}, ack200...", acks_first, fault.name()), "detail": detail});
+    let pad_src: String = if g.bool() { (0..700_000).map(|_| (b'a' + g.below(26) as u8) as char).collect() } else { "emit ".repeat(140_000) };
+    let kinds: Vec<u64> = (0..3u64).filter(|k| split_signal(*k, subset).is_some()).collect();
+    let mut sent: Vec<(u64, Signal)> = Vec::new();
+    let mut vid = case * 100_000;
+    // primers: one small event per configured signal, held by the collector while the burst queues up
+    for s in &configured {
+        let kind = match s {
+            Signal::Logs => 0,
+            Signal::Traces => 1,
+            Signal::Metrics => 2,
+        };
+        emit_big(&otlp, vid, kind, "p");
+        sent.push((vid, *s));
+        vid += 1;
+    }
+    let live = configured.clone();
+    if !col.wait_until(Duration::from_secs(15), |recs| live.iter().all(|s| recs.iter().any(|rec| rec.endpoint == *s && rec.seq == 0 && rec.body_read.is_some()))) {
+        col.release_gate();
+        r.observe("split:scenarios-inconclusive", 1);
+        r.inconclusive("split-batch scenario: the primer requests did not arrive within 15 s");
+        return;
+    }
+    // the burst: at least 3 requests' worth (> 3.5 MiB) for every configured signal
+    let mut per_signal: HashMap<Signal, usize> = HashMap::new();
+    while configured.iter().any(|s| per_signal.get(s).copied().unwrap_or(0) < 3 * MIB + MIB / 2) {
+        let kind = *g.pick(&kinds);
+        let sig = split_signal(kind, subset).unwrap();
+        let pad = if per_signal.get(&sig).copied().unwrap_or(0) >= 3 * MIB + MIB / 2 { g.usize(100) } else { 250_000 + g.usize(450_000) };
+        *per_signal.entry(sig).or_insert(0) += pad;
+        emit_big(&otlp, vid, kind, &pad_src[..pad]);
+        sent.push((vid, sig));
+        vid += 1;
+    }
+    col.release_gate();
+    r.observe("split:events-emitted", sent.len() as u64);
+    if !otlp.blocking_flush(Duration::from_secs(60)) {
+        r.observe("split:scenarios-inconclusive", 1);
+        r.inconclusive("split-batch scenario: blocking_flush returned false (60 s)");
+        return;
+    }
+    col.settle();
+    let records = col.records();
+    r.observe("split:requests-recorded", records.len() as u64);
+    let ms = otlp.metric_source();
+    let acks_written = records.iter().filter(|rec| rec.acked()).count();
+    let acks_seen = ms.http_batch_sent() + ms.grpc_batch_sent();
+    let fault_hit = records.iter().filter(|rec| rec.decision == fault || (fault == Decision::DropOnAccept && rec.decision == Decision::DropBeforeBody)).count();
+    // the fault landed on a later request of a batch whose earlier request had been acknowledged?
+    let mut later_failed = 0;
+    let mut acked_in: HashMap<u64, Vec<&Record>> = HashMap::new();
+    let mut carried_on: HashMap<u64, Vec<Signal>> = HashMap::new();
+    for rec in &records {
+        if rec.body.is_none() || (rec.peer_gone && rec.note.is_some()) {
+            continue;
+        }
+        let Some(ps) = rec.path_signal() else { continue };
+        match rec.items() {
+            Ok(items) => {
+                for v in items.iter().filter_map(|i| i.vid()) {
+                    carried_on.entry(v).or_default().push(ps);
+                    if rec.acked() && !rec.acked_by_status_line() {
+                        acked_in.entry(v).or_default().push(rec);
+                    }
+                }
+            }
+            Err(e) => {
+                r.observe("split:scenarios-inconclusive", 1);
+                r.inconclusive(format!("split-batch scenario: undecodable {} request ({}): {}", ps.name(), tname, e));
+                return;
+            }
+        }
+    }
+    for s in &configured {
+        let on_ep: Vec<&Record> = records.iter().filter(|rec| rec.endpoint == *s).collect();
+        if on_ep.iter().any(|f| f.decision.is_fault() && on_ep.iter().any(|a| a.seq > 0 && a.seq < f.seq && a.acked())) {
+            later_failed += 1;
+        }
+    }
+    r.observe("split:signals-with-a-later-request-failed-after-an-acknowledged-one", later_failed);
+    r.observe(&format!("split:fault-hit:{}", fault.class()), fault_hit as u64);
+    if later_failed > 0 {
+        r.nontrivial(&("split", tname, gzip, subset, fault.class(), acks_first));
+    }
+    if acks_written != acks_seen {
+        // an acknowledgement got lost to a client-side timeout: a retry of it is legitimate
+        r.observe("split:not-judged:acknowledgements-written-and-seen-differ", 1);
+        return;
+    }
+    r.observe("split:scenarios-decided", 1);
+    for (v, want) in &sent {
+        let acked = acked_in.get(v).map(|x| x.len()).unwrap_or(0);
+        if acked > 1 {
+            let recs = &acked_in[v];
+            r.violation(
+                &format!("C14:exported-more-than-once:acknowledged-twice:{}", tname),
+                &format!(
+                    "event v{} was exported in {} requests that were all acknowledged (#{} and #{} on {}); the batch had a later request fail with {}",
+                    v,
+                    acked,
+                    recs[0].seq,
+                    recs[1].seq,
+                    recs[1].endpoint.name(),
+                    fault.name()
+                ),
+                case_json(json!({"vid": v, "acknowledged_in": recs.iter().map(|x| x.brief()).collect::<Vec<_>>()})),
+            );
+            break;
+        }
+        if let Some(on) = carried_on.get(v) {
+            if let Some(other) = on.iter().find(|s| *s != want) {
+                r.violation(
+                    &format!("C14:wrong-signal:split-batch:{}:got={}:want={}", tname, other.name(), want.name()),
+                    &format!("event v{} belongs to {} but a request on {} carries it", v, want.name(), other.name()),
+                    case_json(json!({"vid": v})),
+                );
+                break;
+            }
+        }
+        if acked == 1 {
+            r.observe("split:events-acknowledged-exactly-once", 1);
+        } else if acked == 0 {
+            r.observe("split:events-not-in-an-acknowledged-request", 1);
+        }
+    }
+    if r.wants_sample() && case < 2 {
+        let reqs: Vec<Json> = records.iter().map(|rec| json!({"endpoint": rec.endpoint.name(), "seq": rec.seq, "decision": rec.decision.name(), "acked": rec.acked(), "body_len": rec.body.as_ref().map(|b| b.len())})).collect();
+        let cj = case_json(json!(null));
+        r.sample(move || json!({"scenario": cj, "requests": reqs}));
+    }
+    drop(otlp);
+    drop(col);
+}
+
 fn main() {
     let args = Args::parse();
     let mut r = Report::new(
@@ -594,6 +825,15 @@ fn main() {
         let case = load_replay(path);
         let c = case.get("case").and_then(|v| v.as_u64()).unwrap_or(0);
         let s = case.get("seed").and_then(|v| v.as_u64()).unwrap_or(seed);
+        if case.get("kind").and_then(|v| v.as_str()) == Some("split-batch") {
+            emit_batcher::verif::set_delay_divisor(100);
+            emit_otlp::verif::set_request_timeout(Some(Duration::from_millis(300)));
+            for i in 0..3 {
+                run_split(&mut r, s, c);
+                r.nontrivial(&("replay-run", i));
+            }
+            std::process::exit(r.finish());
+        }
         let n = case.get("events").and_then(|v| v.as_u64()).unwrap_or(n_events);
         let sc = generate(s, c, n);
         run(&mut r, &sc, s);
@@ -607,5 +847,17 @@ fn main() {
         run(r, &sc, seed);
     });
     r.exhaustive("all eight subsets of configured signals x {HTTP+JSON, HTTP+protobuf, gRPC} x gzip on/off");
+
+    // Split batches under failures. The hooks are process-global: they are only switched on now that the
+    // fault-free section is over (a shortened request timeout there could turn load into duplicates).
+    emit_batcher::verif::set_delay_divisor(100);
+    emit_otlp::verif::set_request_timeout(Some(Duration::from_millis(300)));
+    let n_split = args.n(54, 756);
+    par_cases(&mut r, &args, n_split * 16, |i, r| {
+        // one scenario per block of `par_cases`: they spend their time waiting
+        if i % 16 == 0 {
+            run_split(r, seed, i / 16)
+        }
+    });
     std::process::exit(r.finish());
 }
